@@ -400,6 +400,30 @@ theorem subst_closed (N θ : List Ty) (t : Ty) (hN : closedL N = true) (hθ : cl
     (h : t.inRange N.length θ.length = true) : (t.substS N θ).closed = true :=
   substS_closed hN hθ t h
 
+/-! ### a value of type-parameter type is represented exactly as a value of its type argument -/
+
+/-- **unwrap_param** — in the instance `(N, θ)` a clause `case T_i:` unwraps the interface payload iff the type argument
+    `θ[i]` is a non-interface type: the representation decision is the one of the type argument. -/
+theorem unwrap_param (ia : Nat → Bool) (N θ : List Ty) (i : Nat) (a : Ty) (h : θ[i]? = some a) :
+    unwrapIn ia N θ (.own i) = a.unwraps ia := by
+  simp [unwrapIn, Ty.substS, h]
+
+theorem unwrap_nest_param (ia : Nat → Bool) (N θ : List Ty) (i : Nat) (a : Ty) (h : N[i]? = some a) :
+    unwrapIn ia N θ (.nest i) = a.unwraps ia := by
+  simp [unwrapIn, Ty.substS, h]
+
+/-- **unwrap_subst_commutes** — for every term that is not a bare parameter (`[]T`, `Box[T]`, `map[K]V`, atoms …)
+    substitution does not change the decision: it can be taken before or after substituting. -/
+theorem unwrap_subst_commutes (ia : Nat → Bool) (N θ : List Ty) (t : Ty) (h : t.isParam = false) :
+    unwrapIn ia N θ t = t.unwraps ia := by
+  cases t <;> simp_all [unwrapIn, Ty.substS, Ty.unwraps, Ty.isParam]
+
+/-- the decision taken on the RAW parameter (what the translation would do without the resolver) is wrong for every
+    non-interface type argument: it answers "do not unwrap" -/
+theorem unwrap_raw_wrong (ia : Nat → Bool) (N θ : List Ty) (i : Nat) (a : Ty) (h : θ[i]? = some a) (ha : a.unwraps ia = true) :
+    (Ty.own i).unwraps ia ≠ unwrapIn ia N θ (.own i) := by
+  rw [unwrap_param ia N θ i a h, ha]; simp [Ty.unwraps]
+
 /-! ### the full-strength statement is false of the code: a type declared in a generic function used as a type argument -/
 
 /-- full strength: completeness for every well-scoped program (NOT claimed) -/
